@@ -6,6 +6,8 @@ import Asn1Model.Uper
 import Asn1Model.Typing
 import Asn1Model.Oer
 import Asn1Model.Per
+import Asn1Model.Der
+import Asn1Model.BerCodec
 import Asn1Model.OerTyping
 import Asn1Model.BerFraming
 import Asn1Model.Constraints
@@ -194,6 +196,14 @@ def opEnc (args : List Sx) : String :=
         match Per.encode ty val with
         | .ok bs => "ok " ++ (if bs.isEmpty then "-" else toHex bs)
         | .error e => "err " ++ uperErr e
+      | "der" =>
+        match Der.encode ty val with
+        | .ok bs => "ok " ++ (if bs.isEmpty then "-" else toHex bs)
+        | .error e => "err " ++ uperErr e
+      | "ber" =>
+        match BerCodec.encode ty val with
+        | .ok bs => "ok " ++ (if bs.isEmpty then "-" else toHex bs)
+        | .error e => "err " ++ uperErr e
       | _ => "bad-codec"
     | none, _ => "bad-type"
     | _, none => "bad-value"
@@ -218,11 +228,40 @@ def opDec (args : List Sx) : String :=
         match Per.decode ty bs with
         | .ok v => "ok " ++ valToStr v
         | .error e => "err " ++ uperErr e
+      | "der" =>
+        match Der.decode ty bs with
+        | .ok v => "ok " ++ valToStr v
+        | .error e => "err " ++ uperErr e
+      | "ber" =>
+        match BerCodec.decode ty bs with
+        | .ok v => "ok " ++ valToStr v
+        | .error e => "err " ++ uperErr e
       | _ => "bad-codec"
     | none, _ => "bad-type"
     | _, none => "bad-hex"
   | _ => "bad-args"
 
+
+/-- `decwl <codec> <ty> <hex>`: `decode_with_length` of the BER / DER codecs, answers
+`ok <value> <octets consumed>` -/
+def opDecWl (args : List Sx) : String :=
+  match args with
+  | [.atom codec, t, .atom h] =>
+    match sxTy? t, fromHex (if h == "-" then "" else h) with
+    | some ty, some bs =>
+      match codec with
+      | "der" =>
+        match Der.decodeWithLength ty bs with
+        | .ok (v, k) => "ok " ++ valToStr v ++ s!" {k}"
+        | .error e => "err " ++ uperErr e
+      | "ber" =>
+        match BerCodec.decodeWithLength ty bs with
+        | .ok (v, k) => "ok " ++ valToStr v ++ s!" {k}"
+        | .error e => "err " ++ uperErr e
+      | _ => "bad-codec"
+    | none, _ => "bad-type"
+    | _, none => "bad-hex"
+  | _ => "bad-args"
 
 /-- `probe <hex>` : `decode_full_length` -/
 def opProbe (args : List Sx) : String :=
